@@ -150,11 +150,16 @@ func Explore(r *vh.Run, t *testing.T, sc Scenario, bound int, seen map[string]bo
 						// default for mutations: also "took effect, but the caller got an error" (a lost reply)
 						return []string{"ok", "err", "err-after"}
 					}
+					if sc.Faults == nil && op.Kind == "Load" {
+						// default for downloads: also "broke off half-way and was repeated" (the retry layer; the
+						// consumer is called twice within one Load) - not a failure, the operation must still succeed
+						return []string{"ok", "err", "retried"}
+					}
 					return faults
 				},
 			}
 			be.Observe = func(op *gatebe.Op, ans string, err error) {
-				if ans != "ok" && ans != "abort" && ans != "severed" {
+				if ans != "ok" && ans != "abort" && ans != "severed" && ans != "retried" {
 					run.Faulted = true
 				}
 			}
